@@ -433,9 +433,6 @@ def _format_segment(seg: Segment, part_values: PartValues) -> FormatedSeg:
                 zero_part_count += 1
 
     result = seg
-    # remove regex chars
-    result = result.replace(r"^", r"")
-    result = result.replace(r"$", r"")
 
     # unescape braces
     result = result.replace(r"\[", r"[")
@@ -567,7 +564,14 @@ def format_version(vinfo: version.V2VersionInfo, raw_pattern: str) -> str:
     >>> format_version(vinfo_d, raw_pattern='__version__ = "vMAJOR[.MINOR[.PATCH[-TAGNUM]]]"')
     '__version__ = "v1.0.0-rc2"'
     """
-    part_values   = _format_part_values(vinfo)
+    part_values = _format_part_values(vinfo)
+
+    # remove regex anchors
+    if raw_pattern.startswith("^"):
+        raw_pattern = raw_pattern[1:]
+    if raw_pattern.endswith("$"):
+        raw_pattern = raw_pattern[:-1]
+
     segtree       = _parse_segtree(raw_pattern)
     formatted_seg = _format_segment_tree(segtree, part_values)
     return formatted_seg.result
